@@ -122,6 +122,12 @@ func (p c05Point) build() (expr string, raw any, norm any) {
 	switch p.Form {
 	case "bin", "cmp":
 		expr = ref(0) + " " + p.Op + " " + ref(1)
+	case "bin-in-map":
+		expr = "map(&(" + ref(0) + " " + p.Op + " @), [" + ref(1) + "])[0]"
+	case "bin-in-projection":
+		expr = "[" + ref(1) + "][*].(" + ref(0) + " " + p.Op + " @) | [0]"
+	case "bin-in-sort_by":
+		expr = "sort_by([" + ref(1) + "], &(" + ref(0) + " " + p.Op + " @)) | [0] == " + ref(1) + " || " + ref(0) + " " + p.Op + " " + ref(1)
 	case "cmp-array":
 		expr = "[" + ref(0) + "] " + p.Op + " [" + ref(1) + "]"
 	case "unary":
@@ -294,7 +300,24 @@ func c05Run(r *core.Run) {
 					do(c05Point{Form: "cmp", Op: op, X: x, Y: y, Delivery: dl})
 				}
 				do(c05Point{Form: "cmp-array", Op: "==", X: x, Y: y, Delivery: dl})
+				if dl == "json.Number" {
+					for _, op := range []string{"/", "%", "*", "+"} {
+						do(c05Point{Form: "bin-in-map", Op: op, X: x, Y: y, Delivery: dl})
+						do(c05Point{Form: "bin-in-projection", Op: op, X: x, Y: y, Delivery: dl})
+					}
+				}
 			}
+		}
+	}
+	// plain-notation spellings far longer than the canonical form of the same number, through to_number and the operators
+	zeros := func(n int) string { return strings.Repeat("0", n) }
+	for _, t := range []string{"0." + zeros(43) + "1", "25" + zeros(42), "1.5" + zeros(42), "-0." + zeros(60) + "25", "1" + zeros(100), "0." + zeros(100) + "1", zeros(50) + "7", "7." + zeros(80), "-" + zeros(45) + "1.50"} {
+		for _, dl := range c05Deliveries {
+			do(c05Point{Form: "to_number", X: t, Delivery: dl})
+			do(c05Point{Form: "bin", Op: "+", X: t, Y: "1", Delivery: dl})
+			do(c05Point{Form: "bin", Op: "*", X: t, Y: "2", Delivery: dl})
+			do(c05Point{Form: "cmp", Op: "==", X: t, Y: t, Delivery: dl})
+			do(c05Point{Form: "func", Op: "abs", X: t, Delivery: dl})
 		}
 	}
 	li := 0
